@@ -176,7 +176,48 @@ def run(ctx, res):
             res.disagreements.append({'case': {'token': t}, 'model': dm, 'impl': got,
                                       'relation': 'Codec.decode_utext = protocol.decode_string (malformed escapes)'})
     use_sites(ctx, res, vals)
+    concurrent_use(ctx, res)
     res.traces = res.evaluations
+
+
+def concurrent_use(ctx, res):
+    """the codec is a function of its argument also when several threads use it at once: two or three scheduled threads
+    encode / decode different values with every source line of protocol.py a preemption point; each result must be the one
+    a lone caller gets"""
+    import random
+    import dsched
+    from lightstreamer_adapter import protocol
+    pool = ['a b', 'item|1', 'x', 'y', '', None, '#', 'gr\u00f6\u00dfe', 'a b', 'p+q', '100%', 'same', 'same']
+    n = 80 if ctx.tier == 'quick' else 3000
+    for i in range(n):
+        rng = random.Random(ctx.seed * 1000 + i)
+        S = dsched.Sched(fine=('lightstreamer_adapter/protocol.py',), fine_seed=i, fine_p=0.6)
+        scripts = {}
+        out = {}
+        for t in range(rng.choice([2, 2, 3])):
+            name = 't%d' % t
+            scripts[name] = [rng.choice(pool) for _ in range(rng.randint(2, 5))]
+
+            def body(name=name):
+                got = []
+                for v in scripts[name]:
+                    tok = protocol.encode_string(v)
+                    got.append((tok, protocol.decode_string(tok)))
+                out[name] = got
+            S.spawn(name, 'free', body)
+        status = S.run(dsched.RandomChooser(rng), max_steps=20000)
+        crashes = [e for e in S.events if e[0] == 'thread-crash']
+        S.kill_all()
+        res.evaluations += 1
+        res.count('concurrent-use')
+        for name, vs in scripts.items():
+            want = [(protocol.encode_string(v), v) for v in vs]
+            if out.get(name) != want or crashes:
+                res.oracle_violations.append({'case': {'threads': {k: [repr(x) for x in v] for k, v in scripts.items()}, 'seed': i},
+                                              'detail': 'thread %s encoding / decoding %r while other threads use the codec got %r, a lone caller gets %r%s'
+                                                        % (name, vs, out.get(name), want, (' (%r)' % (crashes[0],)) if crashes else ''),
+                                              'key': {'stage': 'concurrent-use'}})
+                break
 
 
 def use_sites(ctx, res, vals):
